@@ -106,27 +106,31 @@ theorem C31_every_response_framed (app : Req → AppResp) (reqs : List Req) (sch
 
 /-! ## responses come back in request order, each matched to its request -/
 
-theorem inv_run (app : Req → AppResp) (reqs : List Req) (hwf : ∀ q ∈ reqs, WFApp (app q)) (sch : List Who) :
+theorem inv_run (app : Req → AppResp) (reqs : List Req) (hwf : ∀ q ∈ reqs, WFReq app q) (sch : List Who) :
     ∀ y, Inv app reqs y → Inv app reqs (run app y sch) := by
   induction sch with
   | nil => intro y h; exact h
   | cons w ws ih => intro y h; exact ih _ (inv_step app reqs hwf y w h)
 
 /-- **C31, the response stream of one request** (every application that yields at least the Content-Length it
-announces): what the responder queues for a request — head, data, terminator — is parsed by the client, from its
-initial state and however the items are grouped on arrival (`feed_append`), into exactly one response with that
-request's tag and the body the application produced; nothing is left over for the next response. -/
-theorem C31_response_stream_roundtrip (tag : Nat) (a : AppResp) (h : WFApp a) (x y : List Item)
+announces, and nothing at all for a body-less response — status 204 / 304 or the answer to a HEAD request): what
+the responder queues for a request — head, data, terminator — is parsed by the client, from its initial state and
+however the items are grouped on arrival (`feed_append`), into exactly one response with that request's tag and the
+body the application produced (none for a body-less response, whose chunk terminator is still consumed); nothing is
+left over for the next response. -/
+theorem C31_response_stream_roundtrip (tag : Tag) (a : AppResp)
+    (h : if tag.2 then a.pieces.flatten = [] else WFApp a) (x y : List Item)
     (hxy : x ++ y = futureFrom (fresh.start a.cl) tag a.pieces) :
-    (feed none x).andThen y = .done tag (bodyOf a) [] := by
+    (feed none x).andThen y = .done tag.1 (if tag.2 then [] else bodyOf a) [] := by
   rw [← feed_append, hxy]; exact stream_roundtrip tag a h
 
 /-- **C31, delivered responses are always the expected ones, in request order** (every application, every list of
 requests, **every schedule** of client and server service calls): at every moment the client's response queue is
 `expected q₀, …, expected q_{k-1}` for the first `k` requests — response `i` is attributed to request `i`, carries the
-tag the application gave to request `i` and the body it produced for it; no response is lost, duplicated, reordered
+tag the application gave to request `i` and the body it produced for it (no body for 204 / 304 responses and
+answers to HEAD requests, which may be mixed in freely); no response is lost, duplicated, reordered
 or mixed with another one. -/
-theorem C31_responses_in_request_order (app : Req → AppResp) (reqs : List Req) (hwf : ∀ q ∈ reqs, WFApp (app q))
+theorem C31_responses_in_request_order (app : Req → AppResp) (reqs : List Req) (hwf : ∀ q ∈ reqs, WFReq app q)
     (sch : List Who) :
     ∃ k, k ≤ reqs.length ∧ (run app (initSys reqs) sch).c.responses = (reqs.take k).map (expected app) := by
   obtain ⟨_, k, h1 | ⟨q, h2⟩ | ⟨q, h3⟩⟩ := inv_run app reqs hwf sch _ (inv_init app reqs)
@@ -149,7 +153,7 @@ def alternate : Nat → List Who
   | 0 => []
   | n + 1 => Who.client :: Who.server :: alternate n
 
-theorem rank_run (app : Req → AppResp) (reqs : List Req) (hwf : ∀ q ∈ reqs, WFApp (app q)) (sch : List Who) (m : Nat) :
+theorem rank_run (app : Req → AppResp) (reqs : List Req) (hwf : ∀ q ∈ reqs, WFReq app q) (sch : List Who) (m : Nat) :
     ∀ y, Base y → Rank app reqs y m → Base (run app y sch) ∧ Rank app reqs (run app y sch) m := by
   induction sch with
   | nil => intro y hb h; exact ⟨hb, h⟩
@@ -158,7 +162,7 @@ theorem rank_run (app : Req → AppResp) (reqs : List Req) (hwf : ∀ q ∈ reqs
     obtain ⟨hb', h'⟩ := step_rank app reqs hwf y w m hb h
     exact ih _ hb' h'
 
-theorem rank_alternate (app : Req → AppResp) (reqs : List Req) (hwf : ∀ q ∈ reqs, WFApp (app q)) (m : Nat) :
+theorem rank_alternate (app : Req → AppResp) (reqs : List Req) (hwf : ∀ q ∈ reqs, WFReq app q) (m : Nat) :
     ∀ y, Base y → Rank app reqs y m → Rank app reqs (run app y (alternate m)) 0 := by
   induction m with
   | zero => intro y _ h; exact h
@@ -172,7 +176,7 @@ serviced in *any* order for as long as one likes (`pre`), and then alternately f
 rounds.  Then the client's response queue is exactly `expected q₀, …, expected q_{N-1}`: one response per request, in
 request order, each attributed to its own request with the tag and body its application produced — and the client is
 idle again. -/
-theorem C31_n_in_n_out_ordered (app : Req → AppResp) (reqs : List Req) (hwf : ∀ q ∈ reqs, WFApp (app q))
+theorem C31_n_in_n_out_ordered (app : Req → AppResp) (reqs : List Req) (hwf : ∀ q ∈ reqs, WFReq app q)
     (pre : List Who) :
     let final := run app (initSys reqs) (pre ++ alternate (tailCost app reqs 0))
     final.c.responses = reqs.map (expected app) ∧ final.c.waited = false := by
@@ -188,12 +192,15 @@ theorem C31_n_in_n_out_ordered (app : Req → AppResp) (reqs : List Req) (hwf : 
   simp only [hrun]
   exact rank_zero app reqs _ this
 
-/-- non-vacuity: three requests — fixed length, streamed, empty — under a lopsided prefix schedule -/
+/-- non-vacuity: five requests — fixed length, streamed, 204 without a length, a HEAD request answered with a
+Content-Length, empty — under a lopsided prefix schedule -/
 example :
     let app : Req → AppResp := fun q =>
-      if q.id = 0 then ⟨some 3, [[1, 2], [3, 4]]⟩ else if q.id = 1 then ⟨none, [[5], [], [6, 7]]⟩ else ⟨none, []⟩
-    (run app (initSys [⟨0⟩, ⟨1⟩, ⟨2⟩]) ([.server, .server, .client, .client, .client, .server] ++ alternate 12)).c.responses
-      = [⟨0, 0, [1, 2, 3]⟩, ⟨1, 1, [5, 6, 7]⟩, ⟨2, 2, []⟩] := by
+      if q.id = 0 then ⟨some 3, [[1, 2], [3, 4]], false⟩ else if q.id = 1 then ⟨none, [[5], [], [6, 7]], false⟩
+      else if q.id = 2 then ⟨none, [], true⟩ else if q.id = 3 then ⟨some 9, [], false⟩ else ⟨none, [], false⟩
+    (run app (initSys [⟨0, false⟩, ⟨1, false⟩, ⟨2, false⟩, ⟨3, true⟩, ⟨4, false⟩])
+        ([.server, .server, .client, .client, .client, .server] ++ alternate 20)).c.responses
+      = [⟨0, 0, [1, 2, 3]⟩, ⟨1, 1, [5, 6, 7]⟩, ⟨2, 2, []⟩, ⟨3, 3, []⟩, ⟨4, 4, []⟩] := by
   decide +kernel
 
 end Ioflo.KeepAlive
